@@ -27,6 +27,7 @@ class Prog:
     tags: tuple = ()          # features, e.g. "reduction", "advidx", "complex", "static"
     nonneg: tuple = ()        # names of inputs used as advanced indices assumed non-negative
     index_ranges: dict = field(default_factory=dict)   # input name -> (lo, hi) for numeric replay
+    fixed_data: dict = field(default_factory=dict)     # input name -> concrete array used for numeric runs
 
 
 class PtLib:
@@ -64,8 +65,55 @@ class PtLib:
     def arange(self, *a, dtype=None):
         return self.pt.arange(*a, dtype=dtype or np.int64)
 
+    def csr_matmul(self, shape, elem_values, elem_col_indices, row_starts, x):
+        return self.pt.make_csr_matrix(shape, elem_values, elem_col_indices, row_starts) @ x
 
-class NpLib:
+    def callee_rowsum(self, a, b):
+        from pytato.loopy import call_loopy
+        return call_loopy(_callee("rowsum", tuple(a.shape)), {"a": a, "b": b}, "rowsum")["out"]
+
+    def callee_sq_and_neg(self, a):
+        from pytato.loopy import call_loopy
+        r = call_loopy(_callee("sqneg", tuple(a.shape)), {"a": a}, "sqneg")
+        return r["sq"], r["ng"]
+
+
+_CALLEES = {}
+
+
+def _callee(which, shape):
+    """the two fixed hand-written loopy kernels (C target, as the code generator requires)"""
+    import loopy as lp
+    key = (which, shape)
+    if key not in _CALLEES:
+        n, m = shape
+        if which == "rowsum":
+            _CALLEES[key] = lp.make_kernel(
+                f"{{[i,j]: 0<=i<{n} and 0<=j<{m}}}", "out[i] = sum(j, 2*a[i,j]) + b[i]",
+                [lp.GlobalArg("a", shape=(n, m), dtype=np.float64), lp.GlobalArg("b", shape=(n,), dtype=np.float64),
+                 lp.GlobalArg("out", shape=(n,), dtype=np.float64, is_input=False)],
+                name="rowsum", lang_version=(2018, 2), target=lp.ExecutableCTarget())
+        else:
+            _CALLEES[key] = lp.make_kernel(
+                f"{{[i,j]: 0<=i<{n} and 0<=j<{m}}}", ["sq[i,j] = a[i,j]*a[i,j] + 1", "ng[j,i] = -a[i,j]"],
+                [lp.GlobalArg("a", shape=(n, m), dtype=np.float64),
+                 lp.GlobalArg("sq", shape=(n, m), dtype=np.float64, is_input=False),
+                 lp.GlobalArg("ng", shape=(m, n), dtype=np.float64, is_input=False)],
+                name="sqneg", lang_version=(2018, 2), target=lp.ExecutableCTarget())
+    return _CALLEES[key]
+
+
+class _CalleeSemantics:
+    """what the two hand-written kernels compute, in NumPy terms (for the NumPy and symnp readings)"""
+
+    def callee_rowsum(self, a, b):
+        return self.sum(2 * a, axis=1) + b
+
+    def callee_sq_and_neg(self, a):
+        return a * a + 1, (-a).T
+
+
+class NpLib(_CalleeSemantics):
     is_pytato = False
 
     def __getattr__(self, n):
@@ -76,6 +124,13 @@ class NpLib:
 
     def arange(self, *a, dtype=None):
         return np.arange(*a, dtype=dtype or np.int64)
+
+    def csr_matmul(self, shape, elem_values, elem_col_indices, row_starts, x):
+        dense = np.zeros(shape, dtype=np.result_type(elem_values.dtype, x.dtype))
+        for r in range(shape[0]):
+            for k in range(int(row_starts[r]), int(row_starts[r + 1])):
+                dense[r, int(elem_col_indices[k])] += elem_values[k]
+        return dense @ x
 
 
 def build_pytato(prog: Prog, data=None):
@@ -126,6 +181,11 @@ def default_data(name, shape, dtype, prog=None, seed=0):
     rng = np.random.default_rng(abs(hash((name, seed))) % (2 ** 32) if False else (sum(map(ord, name)) + 7919 * seed))
     dt = np.dtype(dtype)
     n = int(np.prod(shape)) if len(shape) else 1
+    if prog is not None and name in getattr(prog, "fixed_data", {}):
+        a = prog.fixed_data[name]
+        if isinstance(a, np.ndarray) and a.dtype == dt and a.shape == tuple(shape):
+            return a               # keep views as they are (strides / shared memory are the point)
+        return np.asarray(a, dtype=dt).reshape(shape)
     if prog is not None and name in prog.index_ranges:
         lo, hi = prog.index_ranges[name]
         return rng.integers(lo, hi, size=shape).astype(dt)
@@ -195,7 +255,10 @@ CORPUS = [
     _P("einsum_forms", [ph("a", (3, 3)), ph("b", (3, 4)), ph("c", (3, 1))],
        lambda L, a, b, c: {"tr": L.einsum("ii->i", a), "mm": L.einsum("ij,jk->ik", a, b), "bc": L.einsum("ij,ij->ij", a, c),
                            "sum": L.einsum("ij->", b), "outer": L.einsum("i,j->ij", a[0], b[1]),
-                           "three": L.einsum("ij,jk,ik->i", a, b, b)}, tags=("reduction", "einsum")),
+                           "three": L.einsum("ij,jk,ik->i", a, b, b),
+                           # length-1 operand first / second on a *contracted* index (legal broadcasting)
+                           "bc_contract": L.einsum("ij,jk->ik", c, b), "bc_contract2": L.einsum("jk,ij->ik", b, c)},
+       tags=("reduction", "einsum")),
     _P("dot_vdot", [ph("a", (2, 3)), ph("b", (3, 2)), ph("u", (3,)), ph("w", (3,))],
        lambda L, a, b, u, w: {"d1": L.dot(u, w), "d2": L.dot(a, b), "d3": L.dot(a, u), "vd": L.vdot(u, w)},
        tags=("reduction", "einsum")),
@@ -233,9 +296,25 @@ CORPUS = [
        lambda L, x, y: {"x_out": x, "same1": x + y, "same2": x + y, "y2": y * 2}),
     _P("data_wrappers", [dw("d", (3, 2)), ph("x", (3, 2)), dw("e", (2,), I64)],
        lambda L, d, x, e: {"o": d * x + e, "s": L.sum(d, axis=0) * e, "drev": d[::-1]}, tags=("reduction",)),
+    _P("dw_views", [dw("m", (3, 3)), dw("mt", (3, 3)), dw("u4", (4,)), dw("u2", (4,)), ph("x", (3, 3))],
+       lambda L, m, mt, u4, u2, x: {"d": m - mt, "s": (m + x) * mt, "v": u4 * 2 - u2},
+       tags=("views",),
+       fixed_data=(lambda base, u: {"m": base, "mt": base.T, "u4": u[:4], "u2": u[::2]})(
+           np.arange(9.0).reshape(3, 3) * 0.5 + 1.0, np.arange(8.0) * 1.5 - 2.0)),
+    _P("hash_colliding_siblings", [ph("x", (4,)), ph("y", (4,))],
+       # CPython: hash(-1) == hash(-2); structurally different siblings with equal hashes
+       lambda L, x, y: {"poly": (x - 1) * (x - 2), "l1": L.roll(x, -1, 0) + y, "l2": L.roll(x, -2, 0) + y,
+                        "p1": x ** -1.0 + y * -1, "p2": x ** -2.0 + y * -2}),
+    _P("np_scalar_operands", [ph("b8", (4,), np.int8), ph("f4", (4,), F32), ph("c", (4,), B)],
+       lambda L, b8, f4, c: {"wide": b8 * np.int64(3), "cmp": L.less_equal(f4, np.float64(0.1)),
+                             "wh": L.where(c, f4, np.float64(0.1)), "add": f4 + np.float64(2.5), "i": b8 + np.int8(2)},
+       tags=("npscalars",)),
     _P("zero_size", [ph("x", (0, 3)), ph("y", (3,))],
        lambda L, x, y: {"a": x + y, "c": L.concatenate([x, L.reshape(y, (1, 3))]), "r": L.reshape(x, (3, 0)),
                         "t": x.T}),
+    _P("zero_size_reduction", [ph("x", (0, 3)), ph("z", (2, 3))],
+       lambda L, x, z: (lambda s_: {"o": s_, "p": s_ * 2 + 1, "q": x.T @ x, "r": L.sum(z, axis=1)})(L.sum(x, axis=1)),
+       tags=("reduction", "zsr")),
     _P("scalar_arrays", [ph("s", ()), ph("x", (3,))],
        lambda L, s, x: {"a": s * x, "b": s + 1, "c": L.sum(x) * s, "d": L.reshape(s, (1, 1))}, tags=("reduction",)),
     _P("mixed_pipeline", [ph("a", (4, 3)), ph("b", (3, 4)), ph("i", (3,), I64)],
@@ -252,12 +331,21 @@ CORPUS = [
        lambda L, x, y: {"o": x * y + 2, "s": L.sum(x, axis=0), "m": x @ y}, tags=("reduction", "einsum")),
     _P("stack_of_reductions", [ph("x", (3, 4))],
        lambda L, x: {"o": L.stack([L.sum(x, axis=1), L.max(x, axis=1), L.min(x, axis=1)], axis=1)}, tags=("reduction",)),
+    _P("csr_matmul", [ph("ev", (5,)), ph("ci", (5,), I32), ph("rs", (4,), I32), ph("x", (4, 2)), ph("v", (4,))],
+       lambda L, ev, ci, rs, x, v: {"mx": L.csr_matmul((3, 4), ev, ci, rs, x), "mv": L.csr_matmul((3, 4), ev, ci, rs, v) * 2.0},
+       tags=("reduction", "csr"), fixed_data={"ci": [0, 3, 1, 2, 3], "rs": [0, 2, 2, 5]}),
+    _P("loopy_calls", [ph("x", (3, 4)), ph("y", (3,))],
+       lambda L, x, y: (lambda sqng: {"rs": L.callee_rowsum(x * 2, y) + 1, "sq": sqng[0] - x, "ng": sqng[1] * 2,
+                                      "rs2": L.callee_rowsum(sqng[0], y)})(L.callee_sq_and_neg(x + 1)),
+       tags=("reduction", "loopycall")),
     _P("neg_abs_pow", [ph("x", (3,)), ph("m", (3,), I64)],
        lambda L, x, m: {"a": -x, "b": abs(x) ** 0.5, "c": (-m) ** 2, "e": x ** 2 - m}),
 ]
 
 
-def corpus(tier="quick", seed=0, want=None, exclude=()):
+def corpus(tier="quick", seed=0, want=None, exclude=("zsr",)):
+    """exclude: program tags to leave out ('zsr' = the zero-size stored reduction that is a listed C01 finding
+    is only part of C01's own program list)"""
     progs = [p for p in CORPUS if not (set(p.tags) & set(exclude))]
     if want:
         progs = [p for p in progs if p.name in want]
@@ -417,6 +505,15 @@ SYM_CORPUS = [
             lambda L, S, x, y: {"o": x + y, "r": L.roll(x, 2, 0)}),
     SymProg("sym_expand", ("n",), [("x", lambda n: (n,), F64)],
             lambda L, S, x: {"e": L.expand_dims(x, 0) * 2, "bt": L.broadcast_to(L.expand_dims(x, 1), (S["n"], 3))}),
+    SymProg("sym_two_reductions", ("n", "m"),
+            [("a", lambda n, m: (n, m), F64), ("b", lambda n, m: (n, m), F64), ("v", lambda n, m: (n,), F64)],
+            lambda L, S, a, b, v: {"o": L.einsum("ij,ij,k->k", a, b, v)}, min_size=1),
+    SymProg("sym_respelled_lengths", ("n", "m"),
+            [("x", lambda n, m: (n + m, 3), F64), ("y", lambda n, m: (m + n, 1), F64), ("z", lambda n, m: (n + m, 3), F64)],
+            lambda L, S, x, y, z: {"o": x * y + z, "w": L.where(L.less(x, z), y, x)}),
+    SymProg("sym_respelled_double", ("n",),
+            [("x", lambda n: (2 * n,), F64), ("y", lambda n: (n + n,), F64)],
+            lambda L, S, x, y: {"o": x - y, "w": L.where(L.less(x, y), x, y)}),
     SymProg("sym_pad", ("n",), [("x", lambda n: (n,), F64)],
             lambda L, S, x: {"p": L.pad(x, (1, 2))}),
 ]
